@@ -166,6 +166,18 @@ fn oracle_single(cfg: &EnvCfg, msg: &[u8], frames: &[Vec<u8>], inv: &[(String, S
 		if frames.len() > 1 || inv.len() > 1 {
 			return Err("non-UTF-8 message produced several frames or ran several handlers".into());
 		}
+		// bytes that do not even start a JSON object / array cannot be a notification: they are answered
+		// (parse error, id null), never left unanswered and never run a handler
+		let shaped = lead <= 127 && matches!(body.first(), Some(b'{') | Some(b'['));
+		if !shaped && msg.len() <= cfg.max_req as usize {
+			if frames.len() != 1 || !inv.is_empty() {
+				return Err(format!("bytes that are neither UTF-8 nor object/array shaped got {} replies and ran {} handlers (exactly one -32700 reply expected)", frames.len(), inv.len()));
+			}
+			let (id, code) = check_response(&frames[0])?;
+			if id != "null" || code != Some(-32700) {
+				return Err(format!("such bytes were answered with id {id} code {code:?} instead of -32700 / null"));
+			}
+		}
 		return Ok(());
 	}
 	let is_batch_shape = lead <= 127 && body.first() == Some(&b'[');
@@ -825,6 +837,11 @@ fn gen_message(rng: &mut Rng, allow_sub: bool) -> Vec<u8> {
 			let k = rng.range(1, 7);
 			(0..k).map(|_| *rng.pick(&TOKENS)).collect::<Vec<_>>().join(if rng.chance(1, 2) { "" } else { " " }).into_bytes()
 		}
+		15 if rng.chance(1, 3) => {
+			// a byte order mark (or another non-ASCII space) in front of a request is not whitespace to the server
+			let pre = *rng.pick(&["\u{feff}", " \u{feff}", "\u{a0}", "\u{2028}", "\u{feff} "]);
+			format!("{pre}{}", gen_request(rng, allow_sub)).into_bytes()
+		}
 		15 => format!("{}{}", lead_ws(rng), gen_json(rng, 3)).into_bytes(),
 		16 => {
 			// arbitrary bytes, possibly invalid UTF-8
@@ -850,7 +867,7 @@ fn gen_entry(rng: &mut Rng) -> String {
 		0..=5 => gen_request(rng, true),
 		6 => format!("{{\"jsonrpc\":\"2.0\",\"method\":\"{}\"}}", gen_method(rng).replace(['"', '\\'], "")),
 		7 => format!("{{\"id\":{}}}", gen_id(rng).spell(rng)),
-		8 => (*rng.pick(&["1", "null", "\"x\"", "[]", "[1]", "{}", "true", "{\"foo\":\"bar\"}", "{\"jsonrpc\":\"2.0\",\"method\":1}", "{\"jsonrpc\":\"2.0\",\"id\":7,\"method\":1}", "{\"method\":\"echo\"}", "{\"jsonrpc\":\"1.0\",\"id\":\"x\",\"method\":\"echo\"}"])).to_string(),
+		8 => (*rng.pick(&["1", "null", "\"x\"", "[]", "[1]", "{}", "true", "{\"foo\":\"bar\"}", "{\"jsonrpc\":\"2.0\",\"id\":5,\"result\":1}", "{\"jsonrpc\":\"2.0\",\"id\":\"r\",\"error\":{\"code\":-32000,\"message\":\"x\"}}", "{\"jsonrpc\":\"2.0\",\"id\":null,\"result\":null}", "{\"id\":6,\"result\":[]}", "{\"jsonrpc\":\"2.0\",\"method\":\"echo\",\"result\":1,\"id\":7}", "{\"jsonrpc\":\"2.0\",\"method\":1}", "{\"jsonrpc\":\"2.0\",\"id\":7,\"method\":1}", "{\"method\":\"echo\"}", "{\"jsonrpc\":\"1.0\",\"id\":\"x\",\"method\":\"echo\"}"])).to_string(),
 		9 => format!("{{\"jsonrpc\":\"2.0\",\"id\":1,\"method\":\"echo\",\"params\":[{}]}}", rng.below(10)),
 		10 => format!("{{\"jsonrpc\":\"2.0\",\"id\":{},\"method\":\"{}\"}}", rng.below(3), *rng.pick(&["sub", "unsub", "echo"])),
 		_ => {
@@ -1119,8 +1136,14 @@ fn gen_c19(rng: &mut Rng, n: u64, lines: &mut Vec<String>) {
 	// in two and in three frames, with and without Content-Length
 	lines.push("case 0 srv 100000 100000 u".into());
 	{
-		let body = "\u{c} {\"jsonrpc\":\"2.0\",\"id\":\"ü\",\"method\":\"echo\",\"params\":[\"grüße €5 😀\",\"𝄞\"]}".as_bytes().to_vec();
 		let ct = hexs("application/json");
+		// a body that starts with a byte order mark, cut at every position of its first bytes
+		let bom_body = "\u{feff}{\"jsonrpc\":\"2.0\",\"id\":1,\"method\":\"echo\",\"params\":[1]}".as_bytes().to_vec();
+		for p in 0..=6usize {
+			lines.push(format!("http POST {ct} none {} {}", hex(&bom_body[..p]), hex(&bom_body[p..])));
+			lines.push(format!("http POST {ct} {} {} {}", bom_body.len(), hex(&bom_body[..p]), hex(&bom_body[p..])));
+		}
+		let body = "\u{c} {\"jsonrpc\":\"2.0\",\"id\":\"ü\",\"method\":\"echo\",\"params\":[\"grüße €5 😀\",\"𝄞\"]}".as_bytes().to_vec();
 		for p in 0..=body.len() {
 			let cl = if p % 3 == 0 { body.len().to_string() } else { "none".into() };
 			lines.push(format!("http POST {ct} {cl} {} {}", hex(&body[..p]), hex(&body[p..])));
